@@ -208,7 +208,11 @@ def run(ck):
                         "sub-run slices of conflict resolution are contiguous (as C13.1)")
     from ..report import RuleView as _RV
     from . import c13 as _c13
-    _c13.run(_RV(ck, {"C13.1": "C15.10"}))
+    _c13.run(_RV(ck, {"C13.1": "C15.10"}, only_constructs=(":accept-test",)))      # the accept test only; the other thresholds are C13's
+    ck.clause("C15.12", "only neighbours in the chain can overlap: the chainer gives minus infinity to a join of two segments that overlap "
+                        "by more than half of the shorter one, so the single pairwise pass sees every overlap (as C14.2)")
+    from . import c14 as _c14
+    _c14.join_score(_RV(ck, {"C14.2": "C15.12"}))
     ck.clause("C15.11", "the type tests that pick a segment's reference / query labels can succeed: the elements of a segment are "
                         "Scored* wrappers, a test against a class no element can be an instance of silently stops counting unpaired labels")
     from ..rules.narrow import findings as _narrow
@@ -572,6 +576,58 @@ def label_table_members(ck, rule):
     ck.floor(f"{rule} return paths of the label tables", n_paths, 6)
 
 
+def conflict_decision(ck, rule, test_fn=None, only_label_numbers=False):
+    """checkForConflicts: the pair goes down the no-conflict path only when the overlap test itself said no - a further condition
+    in front of it (a 'cheap' pre-test) lets overlapping neighbours through untrimmed"""
+    p = ck.ctx.p
+    seg = p.find_class("AlignmentSegment")
+    fn = seg.methods.get("checkForConflicts")
+    if fn is None:
+        raise AnalysisError("AlignmentSegment.checkForConflicts not found")
+    if test_fn is None:
+        test_fn = seg.methods.get("endOverlapsWithStartOf")
+        if test_fn is None:
+            raise AnalysisError("AlignmentSegment.endOverlapsWithStartOf not found")
+    n = 0
+    for pa in explore(ck, fn):
+        if pa.outcome != "return":
+            continue
+        v = pa.value
+        no_conflict = (v[0] == "new" and v[1].endswith("NoConflict")) or (v[0] == "app" and "NoConflict" in v[1])
+        if not no_conflict:
+            continue
+        n += 1
+        w = where(fn, pa.node)
+        conds = [(c, tv) for c, tv, _ in pa.state.assumptions]
+
+        def is_test(c):
+            return (c[0] == "app" and c[1] == test_fn.qualname) or (c[0] == "mcall" and c[2] == test_fn.name)
+        plain = [tv for c, tv in conds if is_test(c)]
+        if len(conds) == 1 and plain == [False]:
+            ck.ok(rule, short(fn) + ":no-conflict", w, "the no-conflict path is taken exactly when the overlap test is false", "")
+            continue
+        extras = []
+        for c, tv in conds:
+            parts = list(c[1]) if c[0] in ("and", "or") else [c]
+            extras.extend(x for x in parts if not is_test(x))
+        if extras and any(y[0] == "attr" and y[2] == "siteId" for x in extras for y in T.subterms(x)):
+            ck.violation(rule, short(fn) + ":no-conflict", w,
+                         "the overlap test is narrowed by a comparison of label numbers: two neighbours can be declared conflict-free "
+                         "without the overlap test having said so - label numbers descend along a reverse-strand query, so there the "
+                         "pre-test holds exactly for segments that do overlap on the query, and their shared labels stay in both",
+                         found="; ".join(("" if tv else "not ") + T.show(c)[:200] for c, tv in conds)[:400],
+                         required="no-conflict only when endOverlapsWithStartOf(other) is false")
+        elif only_label_numbers:
+            continue
+        elif not plain and not any(is_test(y) for c, _ in conds for y in T.subterms(c)):
+            if any(T.contains(c, V(fn.call_params()[0].name)) for c, _ in conds) or not conds:
+                raise AnalysisError(f"{w}: the no-conflict path of checkForConflicts is not decided by the overlap test: "
+                                    + "; ".join(T.show(c)[:120] for c, _ in conds))
+        else:
+            raise AnalysisError(f"{w}: condition of the no-conflict path not recognised: " + "; ".join(T.show(c)[:160] for c, _ in conds))
+    ck.floor(f"{rule} no-conflict paths of checkForConflicts", n, 1)
+
+
 def overlap_test(ck, rule="C15.6"):
     p = ck.ctx.p
     seg = p.find_class("AlignmentSegment")
@@ -619,6 +675,7 @@ def overlap_test(ck, rule="C15.6"):
              "a conflict is detected whenever (on any sequence) the later segment starts at or before the earlier one's end",
              found="disjuncts: " + "; ".join(f"{T.show(a)} <= {T.show(b)}" for a, b in sorted(got)),
              required=f"{T.show(necessary[0])} <= {T.show(necessary[1])} among the disjuncts")
+    conflict_decision(ck, rule, fn)
     extra = got - want
     if extra:
         ck.observe(f"{rule} extra disjunct(s) in endOverlapsWithStartOf (harmless: empty sub-runs): "
@@ -643,6 +700,20 @@ def slice_window(ck):
         inner = pos
         while inner is not None and inner[0] == "call" and inner[1] in ("list", "tuple") and len(inner[2]) == 1:
             inner = inner[2][0]
+        if inner is not None and inner[0] == "call" and inner[1].endswith("takewhile") and len(inner[2]) == 2:
+            src0 = inner[2][1]
+            while src0[0] == "call" and src0[1] in ("list", "tuple", "iter") and len(src0[2]) == 1:
+                src0 = src0[2][0]
+            if src0[0] in ("comp",) and len(src0[3]) == 1 and src0[3][0][0] == self_attr("positions") and len(src0[3][0][1]) == 1 \
+                    and src0[2][0] == "bv" and any(y[0] in ("mcall", "app") and "lessOnBothSequences" in (y[2] if y[0] == "mcall" else y[1])
+                                                   for y in T.subterms(src0[3][0][1][0])):
+                ck.violation("C15.4", short(fn) + ":lower", w,
+                             "positions before `start` are *filtered* out of the whole segment instead of being dropped from its front: "
+                             "positions are not monotone in `lessOnBothSequences` (an unpaired label behind the cut can again be before "
+                             "`start` on both sequences), so the conflicting sub-run gets a hole and what is left of the segment after "
+                             "subtraction is not a contiguous sub-run", found=T.show(src0)[:200],
+                             required=f"itertools.dropwhile(lambda p: p.lessOnBothSequences({prm[0]}), self.positions)")
+                continue
         if not (inner is not None and inner[0] == "call" and inner[1].endswith("takewhile") and inner[2][1][0] == "call"
                 and inner[2][1][1].endswith("dropwhile")):
             raise AnalysisError(f"{w}: slice window is not takewhile(.., dropwhile(.., self.positions)): {T.show(pos)[:200] if pos else None}")
